@@ -11,6 +11,7 @@
 import NutsModel.C19.Sites
 import NutsModel.C19.Murmur
 import NutsProofs.Lemmas.C19
+import NutsProofs.Lemmas.C19DidWeb
 
 namespace Nuts.C19.Props
 open Nuts Nuts.C19 Nuts.C19.Lemmas
@@ -22,7 +23,7 @@ open Nuts Nuts.C19 Nuts.C19.Lemmas
     function are exactly the expected ones, and every expected panic site is a `Res.panic` site of a model -/
 theorem panic_sites_accounted :
     Facts.C19.partialOps = Sites.expectedOps ∧
-    (∀ s ∈ Sites.expectedSites, s ∈ (Dpop.sites ++ Resolver.sites ++ Bitstring.sites ++ Iblt.sites ++ Callback.sites ++ StatusList.sites ++ DidKey.sites).map (·.2)) := by
+    (∀ s ∈ Sites.expectedSites, s ∈ (Dpop.sites ++ Resolver.sites ++ Bitstring.sites ++ Iblt.sites ++ Callback.sites ++ StatusList.sites ++ DidKey.sites ++ DidWeb.sites).map (·.2)) := by
   constructor <;> decide
 
 /-- the source today is the repaired source: checked assertions in dpop.go and key.go, nil guards on verification
@@ -436,5 +437,242 @@ theorem model_panics_only_at_listed_sites :
     · split at h
       · simp at h
       · cases h; simp [Callback.sites]
+
+/-! ### did:web (deepening round): vdr/didweb/util.go DIDToURL, percentDecodeString, percentDecodeChar and web.go Resolve -/
+
+/-- the did:web source today: slice guard `i+2 < len(s)`, length guard in percentDecodeChar, null-entry guard before the DID
+    library; the characters percentDecodeChar decodes are EXACTLY the ones shouldPercentEncode encodes (both `switch` case lists
+    are regenerated), neither `/` nor `%` nor `.` nor `?` nor `#` is among them; the content types and the status test of Resolve -/
+theorem fact_didweb :
+    Sites.didWebCfg = DidWeb.Cfg.fixed ∧ Facts.C19.didwebEncodeSet = Facts.C19.didwebDecodeSet ∧
+    (∀ x ∈ [47, 37, 46, 63, 35, 92], x ∉ Facts.C19.didwebDecodeSet) ∧
+    Facts.C19.didwebSliceGuards = ["s[i] == '%' && i + 2 < len(s)", "ok"] ∧
+    Facts.C19.didwebStatusTests = ["!(httpResponse.StatusCode >= 200 && httpResponse.StatusCode < 300)"] := by
+  decide
+
+/-- percentDecodeString returns a string — no panic, no error — for EVERY byte string -/
+theorem didweb_percent_decode_total (s : DidWeb.Bytes) : ∃ out, DidWeb.percentDecode Sites.didWebCfg s = .ok out := by
+  rw [fact_didweb.1]; exact dw_decode_from_ok DidWeb.Cfg.fixed 2 rfl (Nat.le_refl 2) s 0
+
+/-- the guard must demand TWO more bytes: with `i+1 < len(s)` (or without a guard) the input "%2" panics at the slice -/
+theorem didweb_percent_decode_guard_needed :
+    DidWeb.percentDecode { DidWeb.Cfg.fixed with sliceGuard := some 1 } [37, 50] = .panic "percentDecodeString:s[i:i+3]" ∧
+    DidWeb.percentDecode { DidWeb.Cfg.fixed with sliceGuard := none } [97, 37] = .panic "percentDecodeString:s[i:i+3]" ∧
+    DidWeb.percentDecodeChar { DidWeb.Cfg.fixed with charLenGuard := false } [37, 50] = .panic "percentDecodeChar:encoded[2]" := by
+  decide
+
+/-- the loop consumes at least one byte per output byte (termination with a bound), for every configuration of the guards -/
+theorem didweb_percent_decode_length (c : DidWeb.Cfg) (s out : DidWeb.Bytes) (h : DidWeb.percentDecode c s = .ok out) :
+    out.length ≤ s.length := dw_decode_from_length c s 0 out h
+
+/-- percent-decoding never INTRODUCES a byte outside the decode set: in particular no `/`, `%`, `.`, `?`, `#`, `\` appears in the
+    URL path that was not literally in the DID (no path traversal through `%2F`, `%2E`) -/
+theorem didweb_percent_decode_only_allowed (s out : DidWeb.Bytes) (h : DidWeb.percentDecode Sites.didWebCfg s = .ok out) :
+    (∀ y ∈ out, y ∈ s ∨ y ∈ Facts.C19.didwebDecodeSet) ∧
+    (∀ x ∈ [47, 37, 46, 63, 35, 92], x ∉ s → x ∉ out) := by
+  have h1 := dw_decode_from_only_allowed Sites.didWebCfg s 0 out h
+  refine ⟨h1, ?_⟩
+  intro x hx hns ho
+  rcases h1 x ho with h2 | h2
+  · exact hns h2
+  · exact fact_didweb.2.2.1 x hx h2
+
+example : DidWeb.percentDecode DidWeb.Cfg.fixed [47, 97, 37, 50, 66, 98, 37, 50, 70, 37] = .ok [47, 97, 43, 98, 37, 50, 70, 37] := by decide
+
+/-- url.PathUnescape (re-implemented, compared with the real one on every run) is the identity on strings without `%` -/
+theorem didweb_path_unescape_plain (s : DidWeb.Bytes) (h : 37 ∉ s) : DidWeb.pathUnescape s = some s :=
+  dw_unescape_no_percent s h
+
+/-- DIDToURL never panics: every DID value (any method, any ID bytes), every behaviour of url.Parse / net.ParseIP -/
+theorem didweb_did_to_url_total (up : DidWeb.UrlParse) (method : String) (id : DidWeb.Bytes) :
+    ∀ site, DidWeb.didToURL Sites.didWebCfg up method id ≠ .panic site := by
+  intro site
+  unfold DidWeb.didToURL
+  have := dw_target_no_panic Sites.didWebCfg didweb_percent_decode_total method id
+  split
+  · intro h; cases h
+  · rename_i s hs; exact absurd hs (this s)
+  · split
+    · intro h; cases h
+    · split
+      · intro h; cases h
+      · split <;> (intro h; cases h)
+
+/-- what an accepted DID guarantees: method web, the host url.Parse found IS the unescaped first segment of the id, and it is
+    not an IP address -/
+theorem didweb_did_to_url_ok (up : DidWeb.UrlParse) (method : String) (id : DidWeb.Bytes) (p : DidWeb.Parsed)
+    (h : DidWeb.didToURL Sites.didWebCfg up method id = .ok p) :
+    method = "web" ∧ DidWeb.pathUnescape (DidWeb.splitColon id).1 = some p.host ∧ p.isIP = false ∧
+    ∃ t, DidWeb.didTarget Sites.didWebCfg method id = .ok t ∧ up (DidWeb.targetURL t) = some p := by
+  unfold DidWeb.didToURL at h
+  split at h
+  · cases h
+  · cases h
+  · rename_i t ht
+    split at h
+    · cases h
+    · rename_i p' hp
+      split at h
+      · cases h
+      · rename_i hhost
+        split at h
+        · cases h
+        · rename_i hip
+          cases h
+          have hhost' : p.host = t.1 := by simpa using hhost
+          refine ⟨?_, ?_, by simpa using hip, t, ht, hp⟩
+          · unfold DidWeb.didTarget at ht
+            split at ht
+            · cases ht
+            · rename_i hm; simpa using hm
+          · unfold DidWeb.didTarget at ht
+            split at ht
+            · cases ht
+            · simp only at ht
+              split at ht
+              · cases ht
+              · cases ht
+              · split at ht
+                · cases ht
+                · rename_i uid hu
+                  split at ht
+                  · cases ht
+                  · cases ht
+                  · cases ht
+                    rw [hhost']; exact hu
+
+/-- did:web Resolve never panics — every DID value, every url.Parse behaviour, every HTTP exchange — PROVIDED go-did's
+    Document.UnmarshalJSON panics only on bodies that RejectNullKeyEntries rejects (the third-party contract; see the open finding) -/
+theorem didweb_resolve_total (up : DidWeb.UrlParse) (method : String) (id : DidWeb.Bytes) (h : DidWeb.Http)
+    (contract : h.unmarshal = .panic → h.nullEntries = true) :
+    ∀ site, DidWeb.resolve Sites.didWebCfg up method id h ≠ .panic site := by
+  intro site
+  have hg : Sites.didWebCfg.nullGuard = true := by rw [fact_didweb.1]; rfl
+  unfold DidWeb.resolve
+  split
+  · intro x; cases x
+  · split
+    · intro x; cases x
+    · rename_i s hs; exact absurd hs (didweb_did_to_url_total up method id s)
+    · cases hu : h.unmarshal
+      case panic =>
+        have hne := contract hu
+        simp only [hg, hne, Bool.and_self, if_true]
+        repeat' split
+        all_goals (intro x; cases x; try contradiction)
+      all_goals
+        repeat' split
+        all_goals (intro x; cases x; try contradiction)
+
+/-- END TO END (DID value + HTTP exchange → decision): a document is returned only if the method is web, DIDToURL accepted the id,
+    the status is 2xx, the content type is one of the source's `case` list, the body passed the null-entry guard, go-did parsed
+    it and its id equals the DID; the URL fetched is the parsed path (or /.well-known) + /did.json -/
+theorem didweb_resolve_ok (up : DidWeb.UrlParse) (method : String) (id : DidWeb.Bytes) (h : DidWeb.Http) (path : DidWeb.Bytes)
+    (hr : DidWeb.resolve Sites.didWebCfg up method id h = .ok path) :
+    method = "web" ∧ (∃ p, DidWeb.didToURL Sites.didWebCfg up method id = .ok p ∧ path = DidWeb.requestPath p) ∧
+    h.reqOk = true ∧ h.doOk = true ∧ 200 ≤ h.status ∧ h.status < 300 ∧ (∃ ct, h.ct = some ct ∧ ct ∈ Facts.C19.didwebContentTypes) ∧
+    h.readOk = true ∧ h.nullEntries = false ∧ h.unmarshal = .ok ∧ h.idEquals = true := by
+  have hg : Sites.didWebCfg.nullGuard = true := by rw [fact_didweb.1]; rfl
+  have hc : Sites.didWebCfg.contentTypes = Facts.C19.didwebContentTypes := rfl
+  unfold DidWeb.resolve at hr
+  split at hr
+  · cases hr
+  · rename_i hm
+    split at hr
+    · cases hr
+    · cases hr
+    · rename_i p hp
+      split at hr; · cases hr
+      split at hr; · cases hr
+      split at hr; · cases hr
+      split at hr
+      · cases hr
+      · rename_i ct hct
+        split at hr; · cases hr
+        split at hr; · cases hr
+        split at hr; · cases hr
+        split at hr
+        · cases hr
+        · cases hr
+        · split at hr
+          · cases hr
+          · cases hr
+            rename_i hmm _ _ _ _ _ _ _ _ _ _
+            refine ⟨by simpa using hm, ⟨p, hp, rfl⟩, ?_, ?_, ?_, ?_, ⟨ct, hct, ?_⟩, ?_, ?_, ?_, ?_⟩ <;> simp_all
+
+/-- without the null-entry guard a body go-did panics on takes the node down (the state of the code before 9dd29f8) -/
+theorem didweb_null_guard_needed :
+    DidWeb.resolve { DidWeb.Cfg.fixed with nullGuard := false } (fun _ => some ⟨[120], [], false⟩) "web" [120]
+      ⟨true, true, 200, some "application/json", true, true, .panic, false⟩ = .panic "Resolve>did.Document.UnmarshalJSON" ∧
+    DidWeb.resolve DidWeb.Cfg.fixed (fun _ => some ⟨[120], [], false⟩) "web" [120]
+      ⟨true, true, 200, some "application/json", true, true, .panic, false⟩ = .err "unmarshal" := by
+  decide
+
+example : DidWeb.resolve DidWeb.Cfg.fixed (fun _ => some ⟨[120], [], false⟩) "web" [120]
+    ⟨true, true, 200, some "application/did+json", true, false, .ok, true⟩ = .ok (DidWeb.wellKnown ++ DidWeb.didJson) := by decide
+example : DidWeb.didToURL DidWeb.Cfg.fixed (fun _ => some ⟨[120], [47, 97], false⟩) "web" [120, 58, 97] = .ok ⟨[120], [47, 97], false⟩ := by decide
+example : DidWeb.didToURL DidWeb.Cfg.fixed (fun _ => none) "web" [120, 58, 97, 58] = .err "empty-path" := by decide
+
+
+/-! ### DID documents from the network (w8m1): ambassador.handleNetworkEvent → callback -/
+
+/-- EVERY place in vdr / network / discovery / auth / vcr / didman / storage that unmarshals bytes into a did.Document is known,
+    and the two that run on bytes from a peer or a remote server (ambassador.callback, did:web Resolve) call
+    resolver.RejectNullKeyEntries FIRST (go-did dereferences null key entries while it resolves relationship references) -/
+theorem fact_doc_unmarshal_guarded :
+    Facts.C19.didDocUnmarshals = Sites.expectedDocUnmarshals ∧ Sites.ambassadorCfg = Ambassador.Cfg.fixed := by
+  decide
+
+/-- the DAG subscriber for DID documents never panics, whatever the transaction and the payload bytes — PROVIDED go-did's
+    Document.UnmarshalJSON panics only on payloads that RejectNullKeyEntries rejects (third-party contract) -/
+theorem ambassador_callback_total (i : Ambassador.In) (contract : i.unmarshal = .panic → i.nullEntries = true) :
+    ∀ site, Ambassador.handleNetworkEvent Sites.ambassadorCfg i ≠ .panic site ∧ Ambassador.callback Sites.ambassadorCfg i ≠ .panic site := by
+  intro site
+  rw [fact_doc_unmarshal_guarded.2]
+  have hcb : Ambassador.callback Ambassador.Cfg.fixed i ≠ .panic site := by
+    unfold Ambassador.callback
+    cases hu : i.unmarshal
+    case panic =>
+      have hne := contract hu
+      simp only [hne, Ambassador.Cfg.fixed, Bool.and_self, if_true]
+      repeat' split
+      all_goals (intro x; cases x; try contradiction)
+    all_goals
+      repeat' split
+      all_goals (intro x; cases x; try contradiction)
+  refine ⟨?_, hcb⟩
+  unfold Ambassador.handleNetworkEvent
+  split
+  · intro x; cases x
+  · split <;> (intro x; cases x)
+  · rename_i s hs
+    intro x; cases x
+    exact hcb hs
+
+/-- a rejected payload never reaches the create/update handler (stored state unchanged on error), and a payload with null key
+    entries is always rejected as a non-retried fatal event -/
+theorem ambassador_callback_rejects (i : Ambassador.In) :
+    (∀ e, Ambassador.callback Sites.ambassadorCfg i = .err e → e ≠ "database" → e ≠ "handle" →
+        (i.payloadTypeOk && i.payloadHashSet && i.signingTimeSet && !i.nullEntries && (i.unmarshal == .ok) && i.validateOk) = false) ∧
+    (i.nullEntries = true → Ambassador.handleNetworkEvent Sites.ambassadorCfg i = .ok .fatal) := by
+  rw [fact_doc_unmarshal_guarded.2]
+  constructor
+  · intro e h hdb hh
+    unfold Ambassador.callback at h
+    cases hpt : i.payloadTypeOk <;> cases hph : i.payloadHashSet <;> cases hst : i.signingTimeSet <;> cases hne : i.nullEntries <;>
+      cases hu : i.unmarshal <;> cases hv : i.validateOk <;> simp_all [Ambassador.Cfg.fixed]
+    all_goals (cases hh' : i.handled <;> simp_all)
+  · intro hne
+    unfold Ambassador.handleNetworkEvent Ambassador.callback
+    cases hpt : i.payloadTypeOk <;> cases hph : i.payloadHashSet <;> cases hst : i.signingTimeSet <;> simp [Ambassador.Cfg.fixed, hne]
+
+/-- without the pre-check (seeded mutation w8m1) the payload `"verificationMethod":[null]` + a key reference kills the subscriber -/
+theorem ambassador_null_guard_needed :
+    Ambassador.handleNetworkEvent ⟨false⟩ ⟨true, true, true, true, .panic, false, .ok⟩ = .panic "callback>did.Document.UnmarshalJSON" ∧
+    Ambassador.handleNetworkEvent ⟨true⟩ ⟨true, true, true, true, .panic, false, .ok⟩ = .ok .fatal := by
+  decide
+
+example : Ambassador.handleNetworkEvent Ambassador.Cfg.fixed ⟨true, true, true, false, .ok, true, .ok⟩ = .ok .done := by decide
+example : Ambassador.handleNetworkEvent Ambassador.Cfg.fixed ⟨true, true, true, false, .ok, true, .dbErr⟩ = .ok .retry := by decide
 
 end Nuts.C19.Props
